@@ -391,7 +391,7 @@ def run_check(pid, tier, seed, replay=None, n_override=None):
             lname = lp[lp.index(os.path.join(COQ, group)) + 1]
             for v in open(os.path.join(COQ, group, "_CoqProject")).read().split():
                 if v.endswith(".v"):
-                    mods.append(lname + "." + v[:-2])
+                    mods.append(lname + "." + v[:-2].replace("/", "."))
             rc, out = sh(["timeout", "3000", "coqchk", "-silent", "-o"] + coq_flags(group) + mods, cwd=os.path.join(COQ, group))
         coqchk_note = "coqchk rc=%d: %s" % (rc, " ".join(out.split())[-600:])
         log.append("== " + coqchk_note)
@@ -406,7 +406,7 @@ def run_check(pid, tier, seed, replay=None, n_override=None):
     nontriv = sum(s.get("distinct_nontrivial", 0) for s in stats_all)
     samples = []
     for s in stats_all:
-        samples += s.get("samples", [])[:2]
+        samples += (s.get("samples") or [])[:2]
     samples += ["theorem " + t for t in props["theorems"][:6]]
     ev = dict(
         property_id=pid, tier=tier, seed=seed, level="proof",
